@@ -29,6 +29,15 @@ CHECKS = {
  "C08": dict(
     text="Explicit-state BFS over the real whale_lair wired to the real fee_distributor/collector: all sequences of <=4 (quick, 2 users) / <=5 (thorough, 3 users) bond/unbond/withdraw calls over 2 bonding denoms, invalid calls (foreign denom, cw20, mismatched/multiple/no funds, zero/uncovered unbond) and time steps {same block, +1ns, +period-1ns, +period, +1 day}; a reference ledger built from the accepted calls' arguments is compared in every state with Bonded/TotalBonded/Unbonding/Withdrawable and the bank balance; every withdraw pays exactly the matured unbondings once, to the owner only.",
     note="Bounded alphabets/depth; growth rate 0 (weights are C09's concern); distributor at epoch 0.", tech="explicit-state model checking of the implementation (BFS) against a reference model", ref="DESIGN.md §4 C08"),
+ "C11": dict(
+    text="Explicit-state BFS over the real incentive_factory+incentive (+ real pair/LP token and frontend_helper), epochs from the repository's fee-distributor-mock: all sequences of <=4/<=5 open/expand (also for a receiver)/close/withdraw/helper-deposit/mis-funded opens/tick/snapshot/claim by 3 users, native and cw20 LP assets, incl. a root whose flow reward is the LP asset; in every state LP balance == sum(open)+sum(closed)+unclaimed LP-asset flow funds and Positions == reference model; every withdraw pays exactly the caller's closed positions and nobody else; positions only with the stated amount received; helper retains nothing.",
+    note="Bounded alphabets/depth; withdraw timing is not part of C11.", tech="explicit-state model checking of the implementation (BFS) against a reference model", ref="DESIGN.md §4 C11"),
+ "C12": dict(
+    text="Explicit-state BFS over the real incentive contract for 4-5 fee/reward configurations (native fee = reward denom, native fee != reward, cw20 fee = reward token, cw20 fee != reward, native fee + cw20 reward): all sequences of <=4/<=6 OpenFlow (funds exact / fee only / amount only / over), ExpandFlow (exact/short, by creator and stranger), CloseFlow (creator/owner/stranger), staking, ticks, snapshots, claims; funded amount is measured from actual balance deltas and compared with the Flow query, the collector's fee, the creator's refund on close and the contract's reward balance in every state.",
+    note="Bounded alphabets/depth; flows last 3-4 epochs.", tech="explicit-state model checking of the implementation (BFS) with balance-delta ghost ledger", ref="DESIGN.md §4 C12"),
+ "C13": dict(
+    text="(a) exhaustive grid of calculate_weight (hook): 9 durations x ~300 amounts: >= amount, monotone in amount and duration, matches the documented quadratic, rejects out-of-range durations. (b) explicit-state BFS (depth 5 quick / 7 thorough) over positions of amounts {1,2,3,1000} x 3 durations by 3 users, 1-2 flows with expansions, ticks, the permissionless snapshot placed anywhere, claims in any order: raw GLOBAL_WEIGHT == sum ADDRESS_WEIGHT, shares of the current epoch (share query) sum <= 1, second claim in an epoch pays nothing, claim == Rewards query immediately before, claim <= what the covered epochs can emit, payout == ledger increase.",
+    note="20-epoch / 100-epoch histories are beyond the depth bound. One known finding (close before the epoch's snapshot) reported as KNOWN-FINDING.", tech="explicit-state model checking of the implementation (BFS) + exhaustive formula grid", ref="DESIGN.md §4 C13"),
 }
 NOT_BUILT = "check not built yet in this round (planned, see DESIGN.md)"
 props = [json.loads(l) for l in open('/verif/properties.jsonl')]
